@@ -28,7 +28,8 @@ from .registry import (
 
 import os as _os
 
-FEAS_TIMEOUT_MS = int(_os.environ.get("PYVC_FEAS_MS", "400"))
+FEAS_TIMEOUT_MS = int(_os.environ.get("PYVC_FEAS_MS", "6000"))
+FEAS_RLIMIT = int(_os.environ.get("PYVC_FEAS_RLIMIT", "2500000"))
 OBL_TIMEOUT_MS = int(_os.environ.get("PYVC_OBL_MS", "15000"))
 
 
@@ -353,10 +354,14 @@ class Run:
         self.prefix = list(prefix)
         self.taken = []
         self.alternatives = []
+        # feasibility checks are bounded by a deterministic resource limit (same verdicts under load);
+        # the wall-clock timeout is only a backstop
         self.solver = z3.Solver()
+        self.solver.set("rlimit", FEAS_RLIMIT)
         self.solver.set("timeout", FEAS_TIMEOUT_MS)
         self.solver_qf = z3.Solver()  # quantifier-free part of the path condition: fast, sound for pruning
-        self.solver_qf.set("timeout", 2000)
+        self.solver_qf.set("rlimit", 5 * FEAS_RLIMIT)
+        self.solver_qf.set("timeout", 2 * FEAS_TIMEOUT_MS)
         self.pc = []
         self.heap = H.Heap()
         self.alloc0 = z3.Int("$alloc0")
